@@ -73,7 +73,7 @@ func (m *MemoryHeightIterator) Domain() (start []byte, end []byte) {
 }
 
 func (m *MemoryHeightIterator) Valid() bool {
-	if m.endIdx < m.startIdx || m.curIdx > m.endIdx {
+	if m.endIdx < m.startIdx || m.curIdx > m.endIdx || m.curIdx < m.startIdx {
 		return false
 	}
 	if (m.end != "" && m.sortedKeys[m.curIdx] >= m.end) || (m.start != "" && m.sortedKeys[m.curIdx] < m.start) {
